@@ -157,6 +157,24 @@ def r1_r2(tree, rep):
                 ok = ok and bool(node) and (not gu.only_when(node, _ta(same), True) or not gu.only_when(node, _na(same), False))
     rep.check("C20.R2", "Manager.use_hints parses every hint and drops the unparseable (None) ones before handing them to the Connector", ok, site(uh, MGR),
               key="C20.R2:Manager.use_hints")
+    # ... and decides hint by hint: whether a hint is handed to the Connector depends on that hint alone, not on what earlier messages
+    # contained.  The Manager outlives the per-generation Connector; a memory of earlier hints (a "seen" list consulted by the filter)
+    # drops the peer's relay - which it repeats unchanged in every generation - from the second generation on
+    conds = [i for c in ast.walk(uh) if isinstance(c, ast.comprehension) for i in c.ifs]
+    conds += [c.args[0].body for c in ast.walk(uh) if isinstance(c, ast.Call) and dotted(c.func) == "filter" and c.args and isinstance(c.args[0], ast.Lambda)]
+    conds += [n.test for n in ast.walk(uh) if isinstance(n, (ast.If, ast.IfExp, ast.While))]
+    stateful = [c for c in conds if any(is_self_attr(x) for x in ast.walk(c))]
+    MUT = ("append", "extend", "add", "update", "insert", "remove", "discard", "pop", "clear", "setdefault")
+    writes = [n for n in ast.walk(uh) if (isinstance(n, (ast.Assign, ast.AugAssign, ast.AnnAssign)) and any(
+        is_self_attr(t) or (isinstance(t, ast.Subscript) and is_self_attr(t.value)) for t in (n.targets if isinstance(n, ast.Assign) else [n.target])))
+        or (isinstance(n, ast.Call) and isinstance(n.func, ast.Attribute) and n.func.attr in MUT and is_self_attr(n.func.value))]
+    rep.check("C20.R2", "Manager.use_hints decides hint by hint: no filter condition reads Manager state (%d condition(s)) and nothing is remembered "
+              "from one hint message to the next" % len(conds), not stateful and not writes, site((stateful + writes + [uh])[0], MGR),
+              key="C20.R2:Manager.use_hints:stateless",
+              what="Manager.use_hints %s: the Manager lives for the whole wormhole while each generation has a new Connector, so a hint the peer "
+                   "repeats (its relay, in every generation) is withheld from every Connector after the first - the peer's hints no longer "
+                   "become the same dial targets" % ("filters on `%s`" % ast.unparse(stateful[0])[:80] if stateful else
+                                                     "keeps state across hint messages (`%s`)" % ast.unparse(writes[0])[:80] if writes else ""))
     ah = tree.func(TR, "Common", "add_connection_hints")
     g = build(ah)
     apps = g.call_nodes(lambda c: dotted(c.func) in ("self._their_direct_hints.append", "relay_hints.append"))
@@ -460,6 +478,9 @@ def run(tree, rep, tier):
     r5(tree, rep, tier)
     r6(tree, rep)
     r7(tree, rep)
+    # a peer-supplied hostname that does not resolve / an address that refuses must lose the race, not win it (the rule instances are C07.R9)
+    from .C07 import contenders_stay_failed
+    contenders_stay_failed(tree, rep, "C20.R8")
 
 
 MUTANTS = [
